@@ -166,6 +166,37 @@ def vecop_case(c):
     return dict(status="violated" if fails else "ok", fails=fails)
 
 
+def lookup_interp_case(c):
+    """`interp(x, xg, yg)` used as a lookup table in an equation, on a NON-uniform grid: the vector field of every backend equals
+    numpy.interp — inside the grid, at grid points, and outside it (end values, no extrapolation, no wrap-around)."""
+    from pyrates import CircuitTemplate, NodeTemplate, OperatorTemplate
+    xg = np.asarray([-2.0, -1.5, -0.2, 0.1, 0.4, 1.7, 3.0])
+    yg = np.asarray([0.5, -1.0, 2.0, 0.25, -0.75, 1.5, 3.0])
+    variables = {"x": "output(0.3)", "k": 0.5,
+                 "xg": {"vtype": "constant", "value": xg.copy(), "shape": xg.shape, "dtype": "float"},
+                 "yg": {"vtype": "constant", "value": yg.copy(), "shape": yg.shape, "dtype": "float"}}
+    b = c["backend"]
+    try:
+        op = OperatorTemplate(name="lut", equations=["d/dt * x = -k*x + interp(x, xg, yg)"], variables=variables, path=None)
+        tpl = CircuitTemplate(name="net", nodes={"a": NodeTemplate(name="lnode", operators=[op], path=None)})
+        func, args, keys, idx = tpl.get_run_func(f"lutf_{b}", step_size=1e-2, backend=b, vectorize=False, verbose=False, float_precision="float64",
+                                                 file_name=f"lut_{b}", clear=False, solver="scipy", in_place=False)
+    except Exception as exn:
+        return dict(status="violated", fails=[dict(clause="an equation with interp(x, grid, values) compiles on this backend", observed=f"{type(exn).__name__}: {exn}"[:300])])
+    fails = []
+    for xv in (-3.0, -2.0, -1.7, -0.2, 0.0, 0.25, 1.0, 2.5, 3.0, 4.0):
+        want = -0.5 * xv + float(np.interp(xv, xg, yg))
+        try:
+            got = float(np.asarray(oracle.eval_field(dict(func=func, args=args, names=keys, backend=b), np.asarray([xv], dtype=float), 0.0)).ravel()[0])
+        except Exception as exn:
+            return dict(status="violated", fails=[dict(clause="lookup-table equation: generated function is callable", observed=f"{type(exn).__name__}: {exn}"[:300])])
+        if not np.isclose(got, want, rtol=1e-9, atol=1e-12):
+            fails.append(dict(clause="interp(x, grid, values) on a non-uniform grid equals numpy.interp on every backend (end values outside the grid)",
+                              x=xv, observed=got, expected=want))
+            break
+    return dict(status="violated" if fails else "ok", fails=fails)
+
+
 def interp_field_case(c):
     """Adaptive-solver code reads the input as interp(t, time, samples): inside the grid linear interpolation, OUTSIDE it the end
     value is held (numpy.interp), on every backend.  The compiled vector field is evaluated at times inside, before and after the grid."""
@@ -259,7 +290,8 @@ def delayed_edges_backend_case(c):
                               variables={"r": "output(0.1)", "eta": 0.5, "tau": 2.0, "s_in": "input(0.0)"})
         node = NodeTemplate(name="rn", operators=[op], path=None)
         if c["form"] == "scalar":
-            edges = [("a/ro/r", "b/ro/s_in", None, {"weight": 0.8, "delay": 4 * dt}), ("b/ro/r", "a/ro/s_in", None, {"weight": -0.6, "delay": 0.3, "spread": 0.15})]
+            # (both edges carry the same attribute keys: a group of edges in which only some have a `spread` does not compile at all — C11 finding)
+            edges = [("a/ro/r", "b/ro/s_in", None, {"weight": 0.8, "delay": 4 * dt}), ("b/ro/r", "a/ro/s_in", None, {"weight": -0.6, "delay": 0.3})]
             if c["order"]:
                 edges = edges[::-1]
             tpl = CircuitTemplate(name="dn", nodes={"a": node, "b": node}, edges=edges, path=None)
@@ -276,7 +308,7 @@ def delayed_edges_backend_case(c):
     def sim(backend):
         tpl, outs = build()
         res = tpl.run(simulation_time=steps * dt, step_size=dt, solver="euler", outputs=outs, backend=backend, clear=True, verbose=False,
-                      float_precision="float64", file_name=f"dly_{backend}")
+                      float_precision="float64", file_name=f"dly_{backend}", vectorize=c["backend"] != "fortran")     # (Fortran compiles scalar networks only)
         return np.asarray(res.values, dtype=float)
     try:
         ref = sim("default")
@@ -296,6 +328,8 @@ def delayed_edges_backend_case(c):
 
 def dispatch(c):
     k = c["kind"]
+    if k == "lookup_interp":
+        return lookup_interp_case(c)
     if k == "delayed_edges_backend":
         return delayed_edges_backend_case(c)
     if k == "vecop":
@@ -413,11 +447,13 @@ def families(tier, seed):
         nd["over"]["op/tau"] = nd["over"].get("op/tau", 2.0) * 1.7
     out.append(dict(tag="diffrax-two-runs/jax", features=dict(backend="jax", solver="diffrax"), kind="diffrax_seq", target="p1/op/u", T=1.0, dt=0.05,
                     dts=0.1, items=[(three, smooth), (three_b, [-x for x in smooth])]))
-    for b in ("torch", "jax"):
+    for b in ("torch", "jax", "fortran"):
         for form in ("scalar", "connectivity"):
-            for order in (0, 1):
+            for order in ((0, 1) if b != "fortran" else (0,)):
                 out.append(dict(tag=f"delayed-edges/{form}/{order}/{b}", features=dict(backend=b, delayed_edges=form), kind="delayed_edges_backend",
                                 backend=b, form=form, order=order))
+    for b in BACKENDS:
+        out.append(dict(tag=f"lookup-interp-nonuniform-grid/{b}", features=dict(backend=b, lookup_interp=True), kind="lookup_interp", backend=b))
     for name in VECOPS:
         for b in BACKENDS:
             out.append(dict(tag=f"{name}/{b}", features=dict(backend=b, vecop=name), kind="vecop", name=name, backend=b, seed=seed))
